@@ -176,6 +176,10 @@ def explore(hname, params, opts):
         except PyRaise as pr:
             outcome = "escaped"
             detail = f"{type(pr.exc).__module__}.{type(pr.exc).__name__}" + (f"@{pr.where}" if pr.where else "")
+            try:
+                detail += ": " + str(pr.exc)[:160]
+            except Exception:
+                pass
             # an exception that leaves the harness is an obligation failure of its own
             name = f"no-exception-escapes-harness[{type(pr.exc).__name__}]"
             eng.solver.push()
